@@ -106,6 +106,7 @@ type ConfCase struct {
 	V1       bool   `json:"v1,omitempty"`       // version 1: no extensions
 	IssUID   []byte `json:"issuid,omitempty"`   // issuerUniqueID
 	SubUID   []byte `json:"subuid,omitempty"`   // subjectUniqueID
+	Empty    int    `json:"empty,omitempty"`    // bit set: extensions encoded with their smallest value (03 01 00, 04 00, 30 00), see emptyShapes
 }
 
 var attrTypes = []struct {
@@ -347,6 +348,12 @@ func genConf(t *rapid.T) ConfCase {
 		c.Shuffle = rapid.IntRange(0, 1<<16).Draw(t, "shuffle")
 		c.Variant = rapid.IntRange(0, 1<<12-1).Draw(t, "variant")
 		c.V1 = rapid.IntRange(0, 15).Draw(t, "v1") == 0
+		if uni(t, "hasempty")%3 == 0 {
+			c.Empty = 1 << uint(uni(t, "empty")%len(emptyShapes))
+			if rapid.Bool().Draw(t, "empty2") {
+				c.Empty |= 1 << uint(uni(t, "emptyb")%len(emptyShapes))
+			}
+		}
 		if rapid.IntRange(0, 7).Draw(t, "uids") == 0 {
 			c.IssUID = rapid.SliceOfN(rapid.Byte(), 1, 8).Draw(t, "issuid")
 			c.SubUID = rapid.SliceOfN(rapid.Byte(), 1, 8).Draw(t, "subuid")
@@ -606,6 +613,25 @@ func subtrees(tag byte, dns, emails, uris []string, nets []IPNetSpec) []byte {
 // (RFC 5280 s4.2.1.13 says conforming CAs SHOULD NOT use it; crypto/x509 refuses the form, and so does the
 // fork: testdata/notes).
 
+// emptyShapes: extensions the derx encoder can emit with the smallest value of their type. These are the
+// shapes both parsers accept without complaint; RFC 5280 asks CAs for at least one bit / element in most
+// of them, so they sit at the edge of "well formed", but byte-level fast paths break exactly there.
+var emptyShapes = []struct {
+	name string
+	oid  []int
+	val  []byte
+}{
+	{"ku-empty-bitstring", pki.OIDExtKeyUsage, derx.BitString(nil, 0)},
+	{"eku-empty-sequence", pki.OIDExtEKU, derx.Seq()},
+	{"ski-empty-octets", pki.OIDExtSKI, derx.Octets(nil)},
+	{"aki-empty-sequence", pki.OIDExtAKI, derx.Seq()},
+	{"policies-empty-sequence", pki.OIDExtPolicies, derx.Seq()},
+	{"crldp-empty-sequence", pki.OIDExtCRLDP, derx.Seq()},
+	{"san-empty-sequence", pki.OIDExtSAN, derx.Seq()},
+	{"crldp-empty-point", pki.OIDExtCRLDP, derx.Seq(derx.Seq())},
+	{"aki-empty-keyid", pki.OIDExtAKI, derx.Seq(derx.TLV(0x80))},
+}
+
 // pkiBuild encodes the template with derx. Variant bits choose well-formed encodings the stdlib
 // encoder never produces.
 func pkiBuild(c ConfCase) ([]byte, error) {
@@ -725,6 +751,20 @@ func pkiBuild(c ConfCase) ([]byte, error) {
 	}
 	for _, u := range c.Unknown {
 		exts = append(exts, pki.Ext{OID: []int{1, 3, 6, 1, 4, 1, 99999, u.Arc}, Critical: u.Critical, Value: u.Value})
+	}
+	for i, sh := range emptyShapes {
+		if c.Empty>>uint(i)&1 == 0 {
+			continue
+		}
+		replaced := false
+		for j := range exts {
+			if pki.OIDEq(exts[j].OID, sh.oid) {
+				exts[j].Value, replaced = sh.val, true
+			}
+		}
+		if !replaced {
+			exts = append(exts, pki.Ext{OID: sh.oid, Critical: pki.OIDEq(sh.oid, pki.OIDExtKeyUsage) || (pki.OIDEq(sh.oid, pki.OIDExtSAN) && len(c.Subject) == 0), Value: sh.val})
+		}
 	}
 	if c.Shuffle != 0 { // any extension order is well formed
 		s := uint64(c.Shuffle)
@@ -1097,6 +1137,11 @@ func checkConf(t *testing.T, c ConfCase) harness.Verdict {
 			}
 			if c.Shuffle != 0 {
 				v.Class("variant:shuffled-extensions")
+			}
+			for i, sh := range emptyShapes {
+				if c.Empty>>uint(i)&1 == 1 {
+					v.Class("empty:" + sh.name)
+				}
 			}
 			if c.IssUID != nil {
 				v.Class("variant:unique-ids")
